@@ -584,3 +584,48 @@ def field_writers(ctx, prog):
                         ok = f.path.endswith(FIELD_WRITERS["elim_border"]) or any(x in f.path for x in ALWAYS)
                         ctx.ob(R, "%s hands out &mut of generator sub-object %s" % (f.short, ".".join(names[1:2])), ok, "callee %s" % callee_of(t).split("::")[-1], f.loc(t["sp"]))
     ctx.floor(R, n, 30, "stores / &mut hand-offs of generator state")
+
+
+def ilog2_fallback(ctx, prog):
+    """configuration `msrv` (the branch build.rs selects for rustc < 1.67): the hand-written `u64_ilog2` is floor(log2(value)) =
+    (BITS - 1) - leading_zeros(value), read as a linear form over the one call `leading_zeros(value)`; the size-based block-size index
+    (`ilog2((size - 1) / 192) + 1`) is one too large for every non-power-of-two quotient if this is the ceiling instead"""
+    import re
+    from . import summary
+    R = "SA-FORMULA"
+    ctx.rule(R, "the returned expression tree (single-assignment temporaries expanded, casts ignored, commutative operands unordered) equals the documented formula")
+    f = prog.fn("utils::u64_ilog2")
+    ctx.visit(f, weak=True)
+    lines = summary.summary(f)
+    X = "core::num::<impl u64>::leading_zeros(param:value)"
+    ok, why = False, "body %s" % lines
+    if len(lines) == 2 and lines[1] == "RET" and lines[0].startswith("STORE local:v0 = "):
+        e = lines[0][len("STORE local:v0 = "):]
+        if e == "core::num::<impl u64>::ilog2(param:value)":
+            ok, why = True, "the library's ilog2"
+        else:
+            e = e.replace(X, "X")
+            e = re.sub(r"core::num::<impl u64>::(\d+)", r"\1", e)
+
+            def lin(t):
+                t = t.strip()
+                if t == "X":
+                    return (0, 1)
+                if re.fullmatch(r"\d+", t):
+                    return (int(t), 0)
+                m = re.fullmatch(r"(Sub|Add)\((.*)\)", t)
+                if not m:
+                    return None
+                args = summary._split_top(m.group(2))
+                if len(args) != 2:
+                    return None
+                a, b = lin(args[0]), lin(args[1])
+                if a is None or b is None:
+                    return None
+                s = 1 if m.group(1) == "Add" else -1
+                return (a[0] + s * b[0], a[1] + s * b[1])
+            v = lin(e)
+            ok = v == (63, -1)
+            why = "linear form %s of %s" % (v, e)
+    ctx.ob(R, "u64_ilog2 (fallback for rustc < 1.67) = 63 - leading_zeros(value), the floor of log2", ok, why, f.loc())
+    ctx.floor(R, 1, 1, "fallback logarithm read")
